@@ -20,8 +20,9 @@ EXPLANATION = (
     "normalised to the handled spelling; (Q) tallqr returns Q = V R^-1 with R^H R = V^H (M V): Q^H M Q normalises to the identity; "
     "(D) Davidson is a Rayleigh-Ritz iteration: T = V^H A V, Ritz vectors V y, residual A V y - M (V y) diag(theta) with M applied iff given, "
     "the basis is re-orthonormalised against M with the M-image of the whole new block, the loop stops on max|resid| < min_eps and the "
-    "pair with the smallest residual is what is returned; (S) svd takes the eigenvectors of the Gram operator G = X X^H (X = A if m < n "
-    "else A^H, flagged Hermitian), as the factor on X's side and obtains the other factor as X^H e / s with s = sqrt(max(eig, 0)), vh = v^H; "
+    "pair with the smallest residual is what is returned; (S) svd, evaluated as a symbolic tensor term for wide and tall operators and four spellings of mode, equals the specification: the "
+    "eigenvectors of the Gram operator G = X X^H (X = A if m < n else A^H, flagged Hermitian) from symeig(G, k, mode, the caller's method "
+    "and options) as the factor on X's side, the other factor X^H e / s with s = sqrt(max(eig, 0)), vh = v^H; "
     "(V) Hermiticity of A and M and the shape match are asserted before any computation, neig / k default to the full size. NOT decided: "
     "that Davidson converges to the extreme pairs, accuracy, agreement with a dense reference, batch broadcasting.")
 ASSUMPTIONS = ["torch.linalg.eigh returns ascending eigenvalues with orthonormal eigenvectors; cholesky(X) C satisfies C C^H = X",
